@@ -340,13 +340,15 @@ func c12GenPool(r *mon.Rng, kind string) c11Pool {
 	switch kind {
 	case "c":
 		// sharing is the point: allOf users, or-types, regex types
-		switch r.Intn(4) {
+		switch r.Intn(5) {
 		case 0:
 			p.Families = append(p.Families, curated(0))
 		case 1:
 			p.Families = append(p.Families, curated(5))
 		case 2:
 			p.Families = append(p.Families, curated(2))
+		case 3:
+			p.Families = append(p.Families, curated(6))
 		default:
 			p.Families = append(p.Families, c12GraphFamily(r, true, &p.Docs))
 		}
@@ -419,7 +421,7 @@ func c12GenScenario(r *mon.Rng, kind string, quick bool) *c12Scenario {
 
 func c12Sizes(tier string) (raceUnits, rwUnits, reps, onceUnits int) {
 	if tier == "thorough" {
-		return 1200, 1200, 12, 40
+		return 400, 400, 10, 20
 	}
 	return 32, 32, 5, 4
 }
@@ -466,6 +468,7 @@ func c12RunScenarios(c *mon.Ctx, n, reps int, rw bool) {
 		c.Count("goroutines started", sc.G)
 		c.Count("objects created while others run", res.created)
 		c.DistinctHash(res.signature)
+		c.Count("interleaving signatures recorded (distinct ones are counted in distinct_nontrivial)", 1)
 		if rw {
 			c.Count("once events", res.onceEvents)
 			c.Count("schemas whose once bodies were counted", res.onceChecks)
@@ -520,7 +523,11 @@ func c12ReplayRace(raw json.RawMessage) string {
 	ru, _, _, _ := c12Sizes("quick")
 	for lo := 0; lo < ru; lo += 4 {
 		logp := filepath.Join(dir, "race")
-		cmd := exec.Command(exe, "worker", "C12", "quick", "1", strconv.Itoa(lo), strconv.Itoa(lo+4), filepath.Join(dir, "out.json"))
+		seed := os.Getenv("VERIF_SEED")
+		if _, err := strconv.ParseUint(seed, 10, 64); err != nil {
+			seed = "1"
+		}
+		cmd := exec.Command(exe, "worker", "C12", "quick", seed, strconv.Itoa(lo), strconv.Itoa(lo+4), filepath.Join(dir, "out.json"))
 		cmd.Env = append(os.Environ(), "GORACE=halt_on_error=0 exitcode=0 history_size=3 log_path="+logp)
 		cmd.Run()
 		logs, _ := filepath.Glob(logp + ".*")
